@@ -469,6 +469,35 @@ def r11_links_survive(idx, r):
     r.require(loop is not None and any(s_.stmt in loop.body for s_ in tgt), "clearLinkedCache:every-linked-component", cl, msg="the cached volume of every linked component must be dropped")
 
 
+def r12_reference_states(idx, r):
+    """(a) UnshapedComponent.fromComponent freezes a component at its present size: the copy's input temperature IS its hot temperature (no
+    further expansion of the frozen area) and the area handed over is the present (hot) one - a cold area with the original input temperature
+    would let the copy re-expand by the free-standing law, which a derived or linked shape does not follow.  (b) the values
+    dissolveComponentIntoComponent writes into the solvent are hot dimensions read from the solute: every one of its setDimension calls on the
+    solvent says cold=False (sibling agreement).  (c) the (input, hot) temperature pair is stored and read back in one order (shared with R04.2)."""
+    f = idx.method("armi.reactor.components.UnshapedComponent", "fromComponent")
+    mk = next((c for c in iter_calls(f.node) if dotted(c.func) == "UnshapedComponent"), None)
+    if mk is None:
+        raise AnchorMissing("UnshapedComponent.fromComponent: UnshapedComponent(...)")
+    kw = {k.arg: k.value for k in mk.keywords}
+    other = f.params()[-1]
+    r.require("Tinput" in kw and "Thot" in kw and norm(kw["Tinput"]) == norm(kw["Thot"]) == f"{other}.temperatureInC", "fromComponent:frozen-at-the-present-temperature", f, node=mk,
+              msg=f"Tinput={norm(kw.get('Tinput', ast.Constant(None)))}, Thot={norm(kw.get('Thot', ast.Constant(None)))}: the frozen copy must take the present temperature for both, or it expands "
+                  "again from a reference state the original (a derived shape, a component with linked dimensions) never had")
+    a = kw.get("area")
+    r.require(a is not None and isinstance(a, ast.Call) and call_attr(a) in ("getComponentArea", "getArea") and not any(k.arg == "cold" and norm(k.value) == "True" for k in a.keywords), "fromComponent:present-area", f, node=mk,
+              msg="the area frozen into the copy must be the component's present (hot) area")
+    g = idx.method("armi.reactor.converters.blockConverters.BlockConverter", "dissolveComponentIntoComponent")
+    sets = [c for c in iter_calls(g.node) if call_attr(c) == "setDimension" and norm(c.func.value) == "solvent"]
+    if len(sets) < 3:
+        raise AnchorMissing("dissolveComponentIntoComponent: the solvent.setDimension calls")
+    for n_, c in enumerate(sets):
+        r.require(any(k.arg == "cold" and norm(k.value) == "False" for k in c.keywords), f"dissolve:solvent-dimension-{n_}:hot-value-stored-as-hot", g, node=c,
+                  msg=f"`{norm(c)}` stores a hot dimension (read from the solute at temperature, or the documented hot minimum inner diameter) as a COLD value: the solvent then expands it once more")
+    from .c04 import r2_parallel_arrays
+    r2_parallel_arrays(idx, r)
+
+
 def run(idx, chk):
     chk.explanation = (
         "C03: every two-dimensional shape's area formula is typed in the free abelian group generated by the linear expansion factor L "
@@ -494,3 +523,5 @@ def run(idx, chk):
                  necessary="mass per unit height of every component is conserved at every temperature change; linked components follow")
     chk.run_rule("R03.11", "stripped dimension links are handed back to the component on every path; clearLinkedCache drops dependents whenever a parent exists", lambda r: r11_links_survive(idx, r), floor=6,
                  necessary="a linked dimension follows the component it is linked to, before and after copies, backups and temperature changes")
+    chk.run_rule("R03.12", "frozen copies take the present state as reference; dissolved dimensions are stored hot; (Tinput, Thot) stored and read in one order", lambda r: r12_reference_states(idx, r), floor=6,
+                 necessary="a dimension at temperature T is the cold dimension times the expansion factor between the component's OWN input temperature and T")
